@@ -1,5 +1,5 @@
 #!/bin/bash
-# usage: tools_mutbox.sh setup | run <seed-dir>... | all | teardown
+# usage: tools_mutbox.sh setup | run <seed-dir>... | all | patch <file.diff> [<ID>...] | teardown
 # Development aid: a private copy of the machinery (/tmp/mutbox/verif, snapshot of the
 # committed-or-not working tree of /verif) wired to a private scratch worktree of /repo
 # (/tmp/mutbox/repo), so that seeded changes can be run against the checks without ever
@@ -30,6 +30,21 @@ case "${1:-}" in
       git -C "$BOX/repo" checkout -q -- . ; git -C "$BOX/repo" clean -fdq -- src tests
     done
     echo MUTBOX-DONE
+    ;;
+  patch)
+    # patch <file.diff> <ID>... : one arbitrary patch against the given checks (all 18 if none named)
+    PATCH="$2"; shift 2
+    if [ "${1:-}" = "" ]; then set -- C01 C02 C03 C04 C05 C06 C07 C08 C09 C10 C11 C12 C13 C14 C15 C16 C17 C18; fi
+    cd "$BOX/verif" || exit 2
+    git -C "$BOX/repo" checkout -q -- . ; git -C "$BOX/repo" clean -fdq -- src tests
+    if ! git -C "$BOX/repo" apply "$PATCH"; then echo "[$(basename $PATCH)] patch does not apply"; exit 1; fi
+    for prop in "$@"; do
+      OUT=$(VERIF_SEED="${VERIF_SEED:-0}" timeout ${MUT_TIMEOUT:-1500} ./check "$prop" "${TIER:-quick}" 2>&1); RC=$?
+      SUMMARY=$(echo "$OUT" | grep -E "^$prop (quick|thorough)" | tail -1)
+      FIRST=$(echo "$OUT" | grep -m1 -A2 "^VIOLATION\|^INCONCLUSIVE" | tr '\n' ' ' | cut -c1-420)
+      echo "[$(basename $PATCH)] $prop exit=$RC :: $SUMMARY :: $FIRST"
+    done
+    git -C "$BOX/repo" checkout -q -- . ; git -C "$BOX/repo" clean -fdq -- src tests
     ;;
   teardown)
     git -C /repo worktree remove --force "$BOX/repo" 2>/dev/null; git -C /repo worktree prune; rm -rf "$BOX"
